@@ -2338,6 +2338,9 @@ void WriteCode(void) {
         } else if (CodeOutput) {
             PCsUsed[ActPC] = True;
             if (DontPrint) {
+#ifdef FLAMEWING_ASL_RELEASES_VERIF
+                VerifTraceChunk('R', CodeLen * Granularity());
+#endif
                 NewRecord(NewPC);
             } else {
                 WriteBytes();
